@@ -59,6 +59,7 @@ REQUIRED = {"imports:collection_pvd": 10, "imports:mdg_pvd": 10, "imports:vtu": 
             "values_compared": 1000, "entities_compared:subdomain": 30,
             "entities_compared:interface": 4, "groups:mixed_cell_shapes": 4,
             "groups:several_subdomains": 4, "time_information_round_trips": 10,
+            "time_information_repeated_time": 3,
             "tmpdirs_removed": 10}
 ASSUMPTIONS = [
     "file names follow the exporter's convention (prefix without trailing number)",
@@ -315,6 +316,13 @@ def _time_information(case, mon, tmp):
         mode = int(rng.integers(0, 3))
         t = [float(rng.uniform(0, 100)), float(k) / 3.0, np.int64(k)][mode]
         dt = [float(rng.uniform(1e-6, 10)), 0.1 * (k + 1), np.int32(k + 1)][mode]
+        if k > 0 and rng.random() < 0.25:
+            # the same time exported twice in a row (state written twice, stationary
+            # problem, repeated export after a failed step): one entry per export
+            t = times[-1]
+            if rng.random() < 0.5:
+                dt = dts[-1]
+            mon.count("time_information_repeated_time")
         tm.time, tm.dt = t, dt
         tm.write_time_information(tmp / "times" / "times.json")
         times.append(t)
